@@ -238,3 +238,60 @@ Section TextProofs.
     rewrite firstn_map. apply process_values. apply Forall_firstn', Hwf.
   Qed.
 End TextProofs.
+
+(* ------------------------------------------------------------------ the charset decoder models on ASCII *)
+Definition ascii (s : bytes) : Prop := Forall (fun b => b < 128) s.
+
+Lemma lossy_aux_ascii : forall s f, ascii s -> (length s <= f)%nat -> lossy_aux f s = s.
+Proof.
+  induction s as [|b r IH]; intros f H Hf.
+  - destruct f; reflexivity.
+  - destruct f as [|f]; [cbn in Hf; lia|].
+    apply Forall_cons_iff in H. destruct H as [Hb Hr].
+    cbn [lossy_aux utf8_step]. apply N.ltb_lt in Hb. rewrite Hb. cbn [firstn skipn app].
+    rewrite IH; [reflexivity|exact Hr|cbn in Hf; lia].
+Qed.
+
+Lemma utf8_lossy_model_ascii s : ascii s -> utf8_lossy_model s = s.
+Proof. intros H. apply lossy_aux_ascii; [exact H|lia]. Qed.
+
+Lemma w1252_model_ascii s : ascii s -> w1252_model s = s.
+Proof.
+  induction s as [|b r IH]; intros H; [reflexivity|].
+  apply Forall_cons_iff in H. destruct H as [Hb Hr].
+  unfold w1252_model in *. cbn [flat_map]. rewrite IH by exact Hr.
+  unfold w1252_cp, utf8_enc. apply N.ltb_lt in Hb. rewrite Hb. cbn [orb]. rewrite Hb. reflexivity.
+Qed.
+
+Lemma strip_nul_ascii s : ascii s -> ascii (strip_nul s).
+Proof.
+  induction s as [|b r IH]; intros H; [constructor|].
+  apply Forall_cons_iff in H. destruct H as [Hb Hr].
+  destruct r as [|c r'].
+  - cbn [strip_nul]. destruct (b =? 0); constructor; [exact Hb|constructor].
+  - change (strip_nul (b :: c :: r')) with (b :: strip_nul (c :: r')). constructor; [exact Hb|apply IH, Hr].
+Qed.
+
+(* with the decoder models, an ASCII string argument is shown as its bytes, one trailing NUL dropped,
+   CR/LF/TAB as spaces — in either string coding *)
+Theorem canon_ascii_string fd32 fd64 utf8 s : ascii s ->
+  canon_value fd32 fd64 utf8_lossy_model w1252_model (VStr utf8 s) = map nl2sp (strip_nul s).
+Proof.
+  intros H. cbn [canon_value]. destruct s as [|b r]; [reflexivity|].
+  destruct utf8; [rewrite utf8_lossy_model_ascii|rewrite w1252_model_ascii]; try reflexivity; apply strip_nul_ascii, H.
+Qed.
+
+Lemma strip_nul_spec s : strip_nul (s ++ [0]) = s.
+Proof.
+  induction s as [|b r IH]; [reflexivity|].
+  cbn [app strip_nul]. destruct (r ++ [0]) as [|c r'] eqn:E; [destruct r; discriminate|].
+  now rewrite IH.
+Qed.
+
+Lemma strip_nul_no_nul s x : x <> 0 -> strip_nul (s ++ [x]) = s ++ [x].
+Proof.
+  intros Hx. induction s as [|b r IH].
+  - cbn. apply N.eqb_neq in Hx. now rewrite Hx.
+  - cbn [app strip_nul]. destruct (r ++ [x]) as [|c r'] eqn:E; [destruct r; discriminate|].
+    now rewrite IH.
+Qed.
